@@ -173,6 +173,16 @@ def ctext(e):
         d = lin(e)
         if all(isinstance(c, int) for c in d.values()):
             return show_lin(d)
+    if isinstance(e, ast.BinOp):
+        sym = {ast.Add: '+', ast.Sub: '-', ast.Mult: '*', ast.Div: '/', ast.FloorDiv: '//', ast.Mod: '%', ast.Pow: '**', ast.LShift: '<<', ast.RShift: '>>',
+               ast.BitOr: '|', ast.BitAnd: '&', ast.BitXor: '^', ast.MatMult: '@'}[type(e.op)]
+        return '%s %s %s' % (_p(e.left), sym, _p(e.right))
+    if isinstance(e, ast.UnaryOp):
+        sym = {ast.USub: '-', ast.UAdd: '+', ast.Invert: '~', ast.Not: 'not '}[type(e.op)]
+        return '%s%s' % (sym, _p(e.operand))
+    if isinstance(e, (ast.List, ast.Set)):
+        o, c = ('[', ']') if isinstance(e, ast.List) else ('{', '}')
+        return o + ', '.join(ctext(x) for x in e.elts) + c
     if isinstance(e, ast.Call):
         f = ctext(e.func) if not isinstance(e.func, (ast.Name, ast.Attribute)) else u(e.func) if isinstance(e.func, ast.Name) else ctext(e.func)
         args = [ctext(a) for a in e.args] + ['%s=%s' % (k.arg, ctext(k.value)) if k.arg else '**' + ctext(k.value) for k in e.keywords]
@@ -798,8 +808,8 @@ def reaching(ps, node):
     out = []
     for p in with_loop_bodies(ps):
         for ev in p.events:
-            if ev[0] in ('stmt', 'in-loop:stmt') and ev[2] is node:
-                out.append((p, p.conds[:ev[1]] if ev[0] == 'stmt' else p.conds))
+            if ev[0] == 'stmt' and ev[2] is node:
+                out.append((p, p.conds[:ev[1]]))
                 break
     return out
 
